@@ -155,6 +155,16 @@ theorem saltOf_lock (sk pw salt : Bytes) (hs : salt.length = 32) :
   unfold saltOf
   rw [Keyring.decode_lockPrivateKey, Option.map_some, blob_salt _ _ _ privateKeyVersion_length hs]
 
+theorem saltOf_locks (sk : Bytes) : ∀ (l : List (Bytes × Bytes)), (∀ ps ∈ l, ps.2.length = 32) →
+    (l.map (fun ps => Keyring.lockPrivateKey sk ps.1 ps.2)).map saltOf = l.map (fun ps => some ps.2) := by
+  intro l
+  induction l with
+  | nil => intro _; rfl
+  | cons x xs ih =>
+    intro h
+    rw [List.map_cons, List.map_cons, List.map_cons, saltOf_lock sk x.1 x.2 (h x List.mem_cons_self),
+      ih (fun ps hps => h ps (List.mem_cons_of_mem _ hps))]
+
 /-! ### C16: identity is preserved -/
 
 /-- **C16 (history).** For every 32-byte private key, every initial password and 32-byte salt, and every chained list
@@ -263,14 +273,8 @@ theorem C16_salts_fresh (sk p0 s0 : Bytes) (steps : List (Bytes × Bytes × Byte
       saltOf final = some (lastSalt s0 steps) := by
   have ht := tracePasses_chained sk hsk steps p0 s0 hs0 hc
   refine ⟨?_, ?_, ?_⟩
-  · rw [ht, List.map_map]
-    have hl := pwSalts_salt_length p0 s0 hs0 steps p0 hc
-    have : (s0 :: steps.map (·.2.2)).map some = (pwSalts p0 s0 steps).map (fun ps => some ps.2) := by
-      simp only [pwSalts, List.map_cons, List.map_map]; rfl
-    rw [this]
-    apply List.map_congr_left
-    intro ps hps
-    exact saltOf_lock sk ps.1 ps.2 (hl ps hps)
+  · rw [ht, saltOf_locks sk _ (pwSalts_salt_length p0 s0 hs0 steps p0 hc)]
+    simp only [pwSalts, List.map_cons, List.map_map]; rfl
   · rw [ht, List.length_map]; simp only [pwSalts, List.length_cons, List.length_map]
   · obtain ⟨final, h1, _, h3⟩ := C16_history sk p0 s0 steps hsk hs0 hc
     refine ⟨final, h1, tracePasses_last steps _ final h1, ?_⟩
